@@ -30,7 +30,7 @@ type Op struct {
 	Op    string `json:"op"`
 	Max   int    `json:"max"`
 	Batch []Item `json:"batch,omitempty"`
-	J     int    `json:"j,omitempty"`
+	J     int    `json:"j"`
 }
 
 // Beh is one schedule for one source shape.
@@ -54,6 +54,14 @@ var NewDeliverer = func() Deliverer {
 	}
 }
 
+// Committer flushes the scheduler's membatch into the destination.  The default calls Sync.Commit on the database itself;
+// cmd/triesyncdl replaces it by you/downloader trieSync.commit (batch + the written count it consumes).  It returns the count
+// when the path exposes one (-1 otherwise).
+var Committer = func(sched *trie.Sync, dest *youdb.MemDatabase) (int, error) { return sched.Commit(dest) }
+
+// OnNewSync is told the destination whenever a Sync object is created (used by cmd/triesyncdl).
+var OnNewSync = func(dest *youdb.MemDatabase) {}
+
 // PerItem makes the driver deliver every item of a batch in its own call (the downloader's processNodeData does).
 var PerItem = false
 
@@ -71,6 +79,7 @@ func (w *world) newSync() {
 	} else {
 		w.sched = trie.NewSync(w.src.root, w.dest, nil)
 	}
+	OnNewSync(w.dest)
 	w.deliver = NewDeliverer()
 	w.flight = map[common.Hash]bool{}
 }
@@ -201,10 +210,20 @@ func (w *world) apply(op *Op, emit func(map[string]interface{})) {
 			}
 		}
 	case "Commit":
-		n, err := w.sched.Commit(w.dest)
-		ev["written"] = n
+		n, err := Committer(w.sched, w.dest)
+		if n >= 0 {
+			ev["written"] = n
+		}
 		if err != nil {
 			ev["err"] = err.Error()
+		}
+		observeDest = true
+	case "CommitFail":
+		// the Putter fails at write j+1; the Sync object lives on and the caller retries later
+		n, err := w.sched.Commit(&failingPutter{w.dest, op.J})
+		ev["written"] = n
+		if err == nil {
+			ev["err"] = "the failing putter was not reached"
 		}
 		observeDest = true
 	case "CommitCrash":
@@ -238,9 +257,9 @@ func (w *world) apply(op *Op, emit func(map[string]interface{})) {
 				}
 				w.deliver(w.sched, [][]byte{w.src.blobs[id-1]})
 			}
-			w.sched.Commit(w.dest)
+			Committer(w.sched, w.dest)
 		}
-		w.sched.Commit(w.dest)
+		Committer(w.sched, w.dest)
 		ev["rounds"] = rounds
 		observeDest = true
 	default:
